@@ -74,6 +74,14 @@ func generate(cfg *hx.Config) []hx.Case {
 			seen[c.ID] = true
 			exs = append(exs, &c)
 		}
+		// every third script without a CONNECT goes through the MITM-enabled proxy
+		hasConnect := false
+		for _, e := range exs {
+			hasConnect = hasConnect || e.Meth == 'C'
+		}
+		if !hasConnect && n%3 == 0 {
+			mode = "m" + mode
+		}
 		cases = append(cases, caseOf(fmt.Sprintf("%s%d", kind, n), mode, exs))
 		cfg.Count("kind=" + kind)
 		cfg.Count("mode=" + mode)
@@ -245,6 +253,7 @@ func generate(cfg *hx.Config) []hx.Case {
 		add("mix", pick(r, "seq", "seq", "pipe"), exs...)
 	}
 	cases = append(cases, malformed(cfg, rng)...)
+	cases = append(cases, connectStreams(cfg, rng)...)
 	return cases
 }
 
@@ -319,6 +328,97 @@ func malformed(cfg *hx.Config, rng *hx.RNG) []hx.Case {
 	return cases
 }
 
+func hexs(s string) string { return hx.HexS(s)[1:] }
+
+// cstVariants: what a client may do around one CONNECT, for the plain (m = false)
+// and the MITM-enabled proxy.
+func cstVariants(m bool) [][]string {
+	silence := []string{"connect", "wait300", "close"}
+	tlsSilence := []string{"connect", "tls", "wait300", "close"}
+	if m { // until the proxy's own (short) timeout has fired
+		silence = []string{"connect", fmt.Sprintf("wait%d", int(mitmTimeout.Milliseconds())+500), "read"}
+		tlsSilence = []string{"connect", "tls", fmt.Sprintf("wait%d", int(mitmTimeout.Milliseconds())+500), "read"}
+	}
+	get := "GET / HTTP/1.1\r\nHost: nohost.invalid\r\n\r\n"
+	hello := "\x16\x03\x01\x02\x00\x01\x00\x01\xfc\x03\x03" + strings.Repeat("\x5a", 50)
+	return [][]string{
+		{"connect", "close"},
+		{"connect", "half", "read"},
+		silence,
+		{"connect", "raw:00", "wait100", "close"},
+		{"connect", "raw:00", "read"},
+		{"connect", "raw:ff", "half", "read"},
+		{"connect", "raw:16", "close"},
+		{"connect", "raw:16", "half", "read"},
+		{"connect", "raw:1603010200", "close"},
+		{"connect", "raw:1603010200", "read"},
+		{"connect", "raw:" + hexs(hello), "wait100", "close"},
+		{"connect", "raw:" + hexs(hello), "half", "read"},
+		{"connect", "raw:16030100051234567890", "read"},
+		{"connect", "raw:" + hexs(get), "read"},
+		{"connect", "raw:" + hexs("GET / HT"), "close"},
+		{"connect", "raw:" + hexs("GET / HT"), "half", "read"},
+		{"connect", "raw:" + hexs("POST / HTTP/1.1\r\nHost: nohost.invalid\r\nContent-Length: 100\r\n\r\nshort"), "half", "read"},
+		{"connect", "raw:" + hexs("CONNECT nohost.invalid:443 HTTP/1.1\r\nHost: nohost.invalid:443\r\n\r\n"), "read"},
+		{"connect", "tls", "close"},
+		{"connect", "tls", "half", "read"},
+		tlsSilence,
+		{"connect", "tls", "tlsraw:" + hexs("\x00\x01garbage\xff\r\n\r\n"), "read"},
+		{"connect", "tls", "tlsraw:" + hexs(get), "read"},
+		{"connect", "tls", "tlsraw:" + hexs("GET / HT"), "close"},
+		{"connect", "tls", "tlsraw:" + hexs("POST / HTTP/1.1\r\nHost: nohost.invalid\r\nContent-Length: 100\r\n\r\nshort"), "close"},
+		{"connect", "tls", "tlsraw:" + hexs("CONNECT nohost.invalid:443 HTTP/1.1\r\nHost: nohost.invalid:443\r\n\r\n"), "read"},
+		{"raw:" + hexs("CONNECT"), "close"},
+		{"raw:" + hexs("CONNECT nohost.invalid:443 HTTP/1.1\r\n"), "half", "read"},
+		{"connect", "connect", "read"},
+	}
+}
+
+func connectStreams(cfg *hx.Config, rng *hx.RNG) []hx.Case {
+	var cases []hx.Case
+	n := 0
+	add := func(m bool, steps []string) {
+		n++
+		k := "p"
+		if m {
+			k = "m"
+		}
+		cases = append(cases, hx.Case{Name: fmt.Sprintf("cst-%s%d", k, n), In: append([]string{"CST", k}, steps...)})
+		cfg.Count("connect-stream=" + map[bool]string{false: "plain", true: "mitm"}[m])
+	}
+	for _, m := range []bool{false, true} {
+		for _, v := range cstVariants(m) {
+			add(m, v)
+		}
+	}
+	nr := 30
+	if cfg.Thorough() {
+		nr = 400
+	}
+	for k := 0; k < nr; k++ {
+		r := rng.Fork()
+		steps := []string{"connect"}
+		if r.Chance(1, 3) {
+			steps = append(steps, "tls")
+		}
+		b := r.Bytes(r.Range(1, 120))
+		if r.Chance(1, 3) {
+			b[0] = 0x16
+		}
+		if steps[len(steps)-1] == "tls" {
+			steps = append(steps, "tlsraw:"+hx.Hex(b)[1:])
+		} else {
+			steps = append(steps, "raw:"+hx.Hex(b)[1:])
+		}
+		steps = append(steps, pick(r, "close", "read", "half"))
+		if steps[len(steps)-1] == "half" {
+			steps = append(steps, "read")
+		}
+		add(r.Chance(2, 3), steps)
+	}
+	return cases
+}
+
 func corpus() []hx.Case {
 	var cs []hx.Case
 	add := func(name, mode string, exs ...*exch) { cs = append(cs, caseOf(name, mode, exs)) }
@@ -351,6 +451,13 @@ func corpus() []hx.Case {
 	for g := 10; g < len(garbage); g++ {
 		add(fmt.Sprintf("garbage-echoed-into-warning-%d", g), "seq", &exch{ID: 16, Meth: 'G', Outcome: "gar", K: g, Status: 200, Framing: "c", BodyLen: 4}, okEx(17, 'G', "c", 5, nil))
 	}
+	cs = append(cs,
+		hx.Case{Name: "mitm-connect-then-close", In: []string{"CST", "m", "connect", "close"}},
+		hx.Case{Name: "mitm-connect-then-silence", In: []string{"CST", "m", "connect", fmt.Sprintf("wait%d", int(mitmTimeout.Milliseconds())+500), "read"}},
+		hx.Case{Name: "mitm-connect-one-garbage-byte", In: []string{"CST", "m", "connect", "raw:00", "wait100", "close"}},
+		hx.Case{Name: "mitm-connect-tls-record-header-only", In: []string{"CST", "m", "connect", "raw:1603010200", "close"}},
+		hx.Case{Name: "mitm-connect-tls-then-truncated-request", In: []string{"CST", "m", "connect", "tls", "tlsraw:" + hexs("GET / HT"), "close"}},
+		hx.Case{Name: "plain-connect-then-close", In: []string{"CST", "p", "connect", "close"}})
 	add("garbage-then-ok", "seq", &exch{ID: 9, Meth: 'P', Outcome: "gar", K: 1, Status: 200, Framing: "c", BodyLen: 4}, okEx(8, 'G', "k", 5, []int{5}))
 	return cs
 }
